@@ -16,6 +16,7 @@ type c14Step struct {
 	Args []string `json:"args"` // subcommand, options, positionals ({name} = pool file)
 	In   string   `json:"in"`   // pool id piped to stdin
 	Out  bool     `json:"out,omitempty"`
+	Alt  bool     `json:"alt,omitempty"` // the secondary files named in Args hold their partner's content (same path, other content)
 	Ext  string   `json:"ext,omitempty"` // with Out: extension of the -o file (gts derives the output format from .fasta/.gb/.genbank)
 	Aux  bool     `json:"aux,omitempty"` // another invocation sharing the cache directory (gts cache list / purge): run, not compared
 }
@@ -24,7 +25,9 @@ type c14Case struct {
 	Steps []c14Step `json:"steps"`
 }
 
-func (s c14Step) key() string { return fmt.Sprintf("%q|%s|%v|%s", s.Args, s.In, s.Out, s.Ext) }
+func (s c14Step) key() string {
+	return fmt.Sprintf("%q|%s|%v|%s|%v", s.Args, s.In, s.Out, s.Ext, s.Alt)
+}
 
 var (
 	baselineMu sync.Mutex
@@ -43,6 +46,7 @@ func uncached(s c14Step) cliResult {
 	defer env.remove()
 	args := expandArgs(s.Args)
 	args = append([]string{args[0], "--no-cache"}, args[1:]...)
+	setSecondary(s.Args, s.Alt)
 	r = env.run(args, pool[s.In], s.Out, s.Ext)
 	baselineMu.Lock()
 	baseline[s.key()] = r
@@ -63,10 +67,11 @@ func c14Check(c c14Case) *Violation {
 			panic("harness: unknown pool input " + s.In)
 		}
 		want := uncached(s)
+		setSecondary(s.Args, s.Alt)
 		got := env.run(expandArgs(s.Args), pool[s.In], s.Out, s.Ext)
 		hist := []string{}
 		for _, p := range c.Steps[:i+1] {
-			hist = append(hist, fmt.Sprintf("[gts %q < %s out=%v%s]", p.Args, p.In, p.Out, p.Ext))
+			hist = append(hist, fmt.Sprintf("[gts %q < %s out=%v%s alt=%v]", p.Args, p.In, p.Out, p.Ext, p.Alt))
 		}
 		if got.Exit != want.Exit {
 			return viol("exit-status", "after %s: cached run exits %d, --no-cache exits %d (stderr %q vs %q)", strings.Join(hist, " ; "), got.Exit, want.Exit, clipStr(got.Stderr, 200), clipStr(want.Stderr, 200))
@@ -91,6 +96,9 @@ func c14Classify(c c14Case) (bool, []string) {
 		labels = append(labels, "cmd:"+s.Args[0])
 		if s.Out {
 			labels = append(labels, "-o"+s.Ext)
+		}
+		if s.Alt {
+			labels = append(labels, "secondary-file-rewritten")
 		}
 		if s.In == "bad" || s.In == "garbage" || s.In == "empty" || s.In == "bigbad" {
 			labels = append(labels, "invalid-input")
@@ -130,15 +138,15 @@ var c14Variants = map[string][][]string{
 	"reverse":    {{}, {"-F", "fasta"}, {"-F", "genbank"}},
 	"repair":     {{}, {"-F", "fasta"}},
 	"define":     {{"gene", "join(3..5,8..12)"}, {"gene", "order(3..5,8..12)"}, {"gene", "6"}, {"gene", "5^6"}, {"gene", "complement(3..12)"}, {"gene", "complement(join(3..5,8..12))"}, {"gene", "<3..12"}, {"gene", "3..12"}, {"gene", "4..12"}, {"CDS", "3..12"}, {"-q", "note=x", "gene", "3..12"}, {"-q", "note=y", "gene", "3..12"}, {"-q", "note=x", "-q", "gene=z", "gene", "3..12"}, {"-q", "gene=z", "-q", "note=x", "gene", "3..12"}, {"-q", "note=x y", "gene", "3..12"}, {"-q", "note=x", "-q", "y", "gene", "3..12"}, {"-F", "fasta", "gene", "3..12"}},
-	"delete":     {{"3..12"}, {"3..13"}, {"-e", "3..12"}, {"gene"}, {"-e", "gene"}, {"CDS@^..^+3"}, {"-F", "fasta", "3..12"}},
-	"extract":    {{"gene"}, {"-v", "gene"}, {"CDS"}, {"gene", "CDS"}, {"CDS", "gene"}, {"gene CDS"}, {"-v", "gene", "CDS"}, {"gene", "gene"}, {"misc_feature", "CDS", "gene"}, {"gene", "CDS", "misc_feature"}, {}, {"-v"}, {"-F", "fasta", "gene"}, {"3..12"}, {"-v", "3..12"}},
+	"delete":     {{"3..22"}, {"-e", "3..22"}, {"3..12"}, {"3..13"}, {"-e", "3..12"}, {"gene"}, {"-e", "gene"}, {"CDS@^..^+3"}, {"-F", "fasta", "3..12"}},
+	"extract":    {{"gene"}, {"-v", "gene"}, {"CDS"}, {"gene", "CDS"}, {"CDS", "gene"}, {"gene CDS"}, {"-v", "gene", "CDS"}, {"-v", "gene", "misc_feature"}, {"gene", "gene"}, {"misc_feature", "CDS", "gene"}, {"gene", "CDS", "misc_feature"}, {}, {"-v"}, {"-F", "fasta", "gene"}, {"3..12"}, {"-v", "3..12"}},
 	"infix":      {{"10", "{host.gb}"}, {"11", "{host.gb}"}, {"10", "{host2.gb}"}, {"10", "{host3.gb}"}, {"-e", "10", "{host.gb}"}, {"-F", "fasta", "10", "{host.gb}"}},
 	"insert":     {{"10", "{guest.gb}"}, {"11", "{guest.gb}"}, {"10", "{guest2.gb}"}, {"10", "{guest3.gb}"}, {"10", "{guest.fasta}"}, {"10", "{guest2.fasta}"}, {"10", "@ggttcc"}, {"10", "@ggttca"}, {"-e", "10", "{guest.gb}"}, {"-F", "fasta", "10", "{guest.gb}"}, {"gene", "{guest.fasta}"}},
 	"join":       {{}, {"-c"}, {"-F", "fasta"}},
 	"pick":       {{"1"}, {"2"}, {"1,2"}, {"2,1"}, {"1-2"}, {"-f", "1"}, {"-f", "2"}, {"-F", "fasta", "1"}},
 	"query":      {{}, {"-n", "gene"}, {"-n", "product"}, {"-n", "gene", "-n", "product"}, {"-n", "product", "-n", "gene"}, {"-n", "gene product"}, {"-d", ","}, {"-d", ", "}, {"-t", "; "}, {"-t", ";"}, {"-H"}, {"--source"}, {"-I"}, {"-K"}, {"-L"}, {"--empty"}, {"--empty", "-n", "product"}},
 	"rotate":     {{"10"}, {"11"}, {"gene"}, {"^+5"}, {"-F", "fasta", "10"}},
-	"search":     {{"@catg"}, {"@gacc"}, {"{query.fasta}"}, {"{query2.fasta}"}, {"-k", "primer_bind", "@catg"}, {"-q", "note=hit", "@catg"}, {"-q", "note=hit", "-q", "label=x", "@catg"}, {"-q", "label=x", "-q", "note=hit", "@catg"}, {"-q", "note=hit label=x", "@catg"}, {"-q", "note=hit", "-q", "label=x", "-k", "misc_feature", "@catg"}, {"-e", "@catg"}, {"--no-complement", "@catg"}, {"-F", "fasta", "@catg"}},
+	"search":     {{"@cctaa"}, {"--no-complement", "@cctaa"}, {"@ccyta"}, {"-e", "@ccyta"}, {"@cctta"}, {"@cgcac"}, {"{query.fasta}"}, {"{query2.fasta}"}, {"-k", "primer_bind", "@cctta"}, {"-q", "note=hit", "@cctta"}, {"-q", "note=hit", "-q", "label=x", "@cctta"}, {"-q", "label=x", "-q", "note=hit", "@cctta"}, {"-q", "note=hit label=x", "@cctta"}, {"-q", "note=hit", "-q", "label=x", "-k", "misc_feature", "@cctta"}, {"-e", "@cctta"}, {"--no-complement", "@cctta"}, {"-F", "fasta", "@cctta"}},
 	"select":     {{"gene"}, {"CDS"}, {"gene", "CDS"}, {"CDS", "gene"}, {"gene CDS"}, {"[gene CDS]"}, {"-v", "gene"}, {"-v", "gene", "CDS"}, {"-s", "forward", "gene"}, {"-s", "reverse", "gene"}, {"/gene=alpha"}, {"-F", "fasta", "gene"}},
 	"sort":       {{}, {"-r"}, {"-F", "fasta"}},
 	"split":      {{"10"}, {"11"}, {"gene"}, {"CDS@^"}, {"-F", "fasta", "10"}},
@@ -182,6 +190,7 @@ func c14Gen(t *rapid.T) c14Case {
 		}
 		v := vars[rapid.IntRange(0, len(vars)-1).Draw(t, "variant")]
 		st := c14Step{Args: append([]string{cmd}, v...), In: in, Out: rapid.IntRange(0, 3).Draw(t, "out") == 0}
+		st.Alt = rapid.IntRange(0, 3).Draw(t, "alt") == 0
 		if st.Out {
 			st.Ext = rapid.SampledFrom([]string{"", "", ".fasta", ".gb", ".genbank", ".txt"}).Draw(t, "ext")
 		}
@@ -215,6 +224,7 @@ func TestC14(t *testing.T) {
 		}
 		for _, a := range vars {
 			sa := func(in string, out bool) c14Step { return c14Step{Args: append([]string{cmd}, a...), In: in, Out: out} }
+			salt := func(in string) c14Step { return c14Step{Args: append([]string{cmd}, a...), In: in, Alt: true} }
 			se := func(in, ext string) c14Step {
 				return c14Step{Args: append([]string{cmd}, a...), In: in, Out: true, Ext: ext}
 			}
@@ -227,6 +237,7 @@ func TestC14(t *testing.T) {
 				{Steps: []c14Step{sa("small", false), {Args: []string{"cache", "purge"}, Aux: true}, sa("small", false), sa("small", false)}},
 				{Steps: []c14Step{sa("small", false), {Args: []string{"cache", "list"}, Aux: true}, sa("small", false)}},
 				{Steps: []c14Step{sa("big", false), sa("big2", false), sa("bigbad", false), sa("big", false)}},
+				{Steps: []c14Step{sa("small", false), salt("small"), sa("small", false), salt("small")}},
 				{Steps: []c14Step{sa("small", false), se("small", ".fasta"), sa("small", false), se("small", ".gb")}},
 				{Steps: []c14Step{se("smallfa", ".gb"), sa("smallfa", false), se("smallfa", ".fasta"), se("smallfa", ".genbank")}},
 			} {
@@ -237,6 +248,26 @@ func TestC14(t *testing.T) {
 		}
 	}
 	e.done(true)
+	// how discriminating the variant tables are: pairs of variants of one command whose uncached outputs coincide on
+	// the main input cannot reveal a key that ignores the differing option
+	if shard() == 0 {
+		for _, cmd := range c14Commands {
+			vars := c14Variants[cmd]
+			var same []string
+			for i, a := range vars {
+				for _, b := range vars[i+1:] {
+					ra := uncached(c14Step{Args: append([]string{cmd}, a...), In: "small"})
+					rb := uncached(c14Step{Args: append([]string{cmd}, b...), In: "small"})
+					if bytes.Equal(ra.Out, rb.Out) && ra.Exit == rb.Exit {
+						same = append(same, fmt.Sprintf("%q=%q", a, b))
+					}
+				}
+			}
+			if len(same) > 0 {
+				st.note("variants of %s with equal uncached output on input small: %s", cmd, strings.Join(same, " "))
+			}
+		}
+	}
 	n := pick(160, 6000) / shards()
 	rapidPart(t, c14Prop, st, "rapid-histories", maxInt(n, 10), c14Gen)
 	st.note("%d gts executions in this shard", cliExecs)
